@@ -1,13 +1,15 @@
 #!/bin/bash
 # tools/seeded_matrix.sh [tier] [ids...] — run every kept seeded change against its property's
-# check (in the scratch mutant runner, never in /repo) and write /verif/seeded/RESULTS.json.
+# check (in the scratch mutant runner, never in /repo) and write /verif/seeded/RESULTS.json
+# (MATRIX_OUT=<file> and MUTROOT=<dir> allow several partitions to run side by side; merge with
+# tools/merge_results.py).
 TIER="${1:-quick}"; shift
 IDS="$@"; [ -z "$IDS" ] && IDS=$(ls /verif/seeded | grep -E '^(r[0-9]+-)?c[0-9]+-m[0-9]+$')
 OUT=/verif/seeded/RESULTS.json
 python3 - "$TIER" $IDS <<'PY'
 import json, subprocess, sys, os, re
 tier=sys.argv[1]; ids=sys.argv[2:]
-path='/verif/seeded/RESULTS.json'
+path=os.environ.get('MATRIX_OUT','/verif/seeded/RESULTS.json')
 res=json.load(open(path)) if os.path.exists(path) else {}
 for sid in ids:
     meta=json.load(open(f'/verif/seeded/{sid}/meta.json'))
